@@ -340,6 +340,16 @@ struct EraseCounts {
 
 /// after the holder(s) of watch id `w` were dropped: the block must have been released, all zero - unless another live
 /// object still holds the same block (shared storage), in which case it must NOT have been released
+/// blocks released during the last capture that contain this secret (an all-zero "secret" - an object that was wiped
+/// explicitly - is no secret and matches nothing)
+fn leaked(secret: &[u8]) -> u64 {
+    if secret.iter().all(|b| *b == 0) {
+        0
+    } else {
+        alloc::captured_containing(secret) as u64
+    }
+}
+
 fn judge(c: &mut EraseCounts, w: usize, still_held: bool) {
     let res = alloc::watch_result(w).0;
     if still_held {
@@ -394,7 +404,7 @@ fn erase_once(rng: &mut Rng, prog: &[Value], c: &mut EraseCounts) {
                 alloc::capture_stop();
                 let expect = obj.bytes().to_vec();
                 // anything released while the object was being built must not contain its secret
-                c.leaked_blocks += alloc::captured_containing(&expect) as u64;
+                c.leaked_blocks += leaked(&expect);
                 alloc::watch(watch_next, obj.bytes().as_ptr(), 32);
                 slots[i] = Some(Live { obj, expect, watch: watch_next });
                 watch_next += 1;
@@ -409,7 +419,7 @@ fn erase_once(rng: &mut Rng, prog: &[Value], c: &mut EraseCounts) {
                     Obj::Emb(e) => Obj::Emb(Box::new(Embedded { tag: e.tag, key: e.key.clone() })),
                 };
                 alloc::capture_stop();
-                c.leaked_blocks += alloc::captured_containing(&l.expect) as u64;
+                c.leaked_blocks += leaked(&l.expect);
                 let expect = l.expect.clone();
                 // a clone may own a block of its own or share the block of its source
                 let shared = slots.iter().flatten().find(|x| x.obj.bytes().as_ptr() == cl.bytes().as_ptr()).map(|x| x.watch);
@@ -429,9 +439,79 @@ fn erase_once(rng: &mut Rng, prog: &[Value], c: &mut EraseCounts) {
                 alloc::capture_start();
                 drop(o);
                 alloc::capture_stop();
-                c.leaked_blocks += alloc::captured_containing(&e) as u64;
+                c.leaked_blocks += leaked(&e);
                 let h = held(&slots, w);
                 judge(c, w, h);
+            }
+            "zeroize" => {
+                // explicit wipe of a live object: it stays live and holds zeros from now on
+                use zeroize::Zeroize;
+                let mut l = slots[i].take().expect("zeroize of empty slot");
+                let p_before = l.obj.bytes().as_ptr() as usize;
+                match &mut l.obj {
+                    Obj::Priv(k) => k.zeroize(),
+                    Obj::Pay(k) => k.zeroize(),
+                    Obj::Emb(e) => e.key.zeroize(),
+                }
+                let w_old = l.watch;
+                let moved = l.obj.bytes().as_ptr() as usize != p_before;
+                if moved {
+                    // the object went to other storage (e.g. it detached from a shared buffer): follow it
+                    alloc::watch(watch_next, l.obj.bytes().as_ptr(), 32);
+                    l.watch = watch_next;
+                    watch_next += 1;
+                }
+                l.expect = l.obj.bytes().to_vec();
+                if l.expect.len() != 32 || l.expect.iter().any(|b| *b != 0) {
+                    c.live_changed += 1; // an explicit wipe that leaves key bytes behind
+                }
+                slots[i] = Some(l);
+                if moved && !held(&slots, w_old) {
+                    judge(c, w_old, false);
+                }
+            }
+            "clone_from" => {
+                // refill the live object in slot i from the live object in slot src
+                let src = ju64(st, "src") as usize;
+                let src_expect = slots[src].as_ref().expect("clone_from of empty slot").expect.clone();
+                let mut dst = slots[i].take().expect("clone_from into empty slot");
+                let w_old = dst.watch;
+                let p_before = dst.obj.bytes().as_ptr() as usize;
+                let old_expect = dst.expect.clone();
+                alloc::capture_start();
+                {
+                    let sl = slots[src].as_ref().unwrap();
+                    match (&mut dst.obj, &sl.obj) {
+                        (Obj::Priv(a), Obj::Priv(b)) => a.clone_from(b),
+                        (Obj::Pay(a), Obj::Pay(b)) => (**a).clone_from(&**b),
+                        (Obj::Emb(a), Obj::Emb(b)) => a.key.clone_from(&b.key),
+                        _ => panic!("clone_from between different kinds"),
+                    }
+                }
+                alloc::capture_stop();
+                // nothing released on the way may hold the old or the new secret
+                c.leaked_blocks += leaked(&old_expect) + leaked(&src_expect);
+                dst.expect = src_expect;
+                let p_new = dst.obj.bytes().as_ptr() as usize;
+                if p_before != p_new {
+                    // other storage than before: shared with the source, or a fresh block
+                    let shared = slots.iter().flatten().find(|x| x.obj.bytes().as_ptr() as usize == p_new).map(|x| x.watch);
+                    dst.watch = match shared {
+                        Some(w) => w,
+                        None => {
+                            alloc::watch(watch_next, dst.obj.bytes().as_ptr(), 32);
+                            watch_next += 1;
+                            watch_next - 1
+                        }
+                    };
+                    slots[i] = Some(dst);
+                    let h = held(&slots, w_old);
+                    if !h {
+                        judge(c, w_old, false);
+                    }
+                } else {
+                    slots[i] = Some(dst);
+                }
             }
             "drop_unwind" => {
                 // the handle is owned by a frame that a panic unwinds through: its destructor runs while the thread is panicking
@@ -444,7 +524,7 @@ fn erase_once(rng: &mut Rng, prog: &[Value], c: &mut EraseCounts) {
                 }));
                 alloc::capture_stop();
                 assert!(r.is_err());
-                c.leaked_blocks += alloc::captured_containing(&e) as u64;
+                c.leaked_blocks += leaked(&e);
                 let h = held(&slots, w);
                 judge(c, w, h);
             }
